@@ -25,14 +25,14 @@ import Nstd.Callback.LemmasAudit
   outside every clause of the invariant), so the nine primitive lemmas apply unchanged; `execRL_sim` (LemmasReuse.lean) lifts
   that through the evaluator.
 
-  OPEN (1): the specification with listener reuse and the specification without produce the same log.  Plan: the run
-  without reuse carries `lIdx` (object -> variable); the state of the run with reuse is the state of the other with every
-  listener id replaced by `lIdx` of it (live lists renamed pointwise, `lsig`/`lAlive` read through `lId`); invariants of the
-  run without reuse: every receiver in a live list is the live object its variable holds, ids >= `nextL` are pristine.
-  Only for programs that name listener variables < nl: in `exec`, a variable >= nl starts with the object id that `newL`
-  hands out later, so two variables can alias there (harmless for the theorems about `exec`, which quantify over all
-  programs, but the two evaluators then differ).
-  OPEN (2): EMITTER address reuse.  `Sim` is NOT kept by constructing an emitter at a destroyed id while activations of the
+  CLOSED in PropsReuse2.lean (`reuse_listener_refines`): the specification with listener reuse and the specification without
+  produce the same log, hence the model with listener reuse writes the log of the model without.  The run without reuse
+  carries `lIdx` (object -> variable); the state of the run with reuse is the state of the other with every listener id
+  replaced by `lIdx` of it (`SQ`, LemmasReuseSpec2.lean; invariants of the run without reuse: every receiver in a live list is
+  the live object its variable holds, ids >= `nextL` are pristine).  Only for programs that name listener variables < nl: in
+  `exec`, a variable >= nl starts with the object id that `newL` hands out later, so two variables can alias there (harmless
+  for the theorems about `exec`, which quantify over all programs, but the two evaluators then differ).
+  OPEN: EMITTER address reuse.  `Sim` is NOT kept by constructing an emitter at a destroyed id while activations of the
   old emitter are still on the stack (`FInv.act`: `data.activation = topOf frames (e, g)` would see the old, invalidated
   frames), and the specification identifies an emission in progress by (e, g): its `finish` would decrement the depth of the
   new emitter's signal.  Needed: frames / emissions keyed by a generation of the emitter id, or a relation that ignores
